@@ -168,13 +168,13 @@ theorem to_boc_given (fuel : Nat) (p : PCell) (hi hc hcb : Bool) (fl : Nat) (cel
 /-- the loop state `(post_order, stack, visited)` (the loop-carried variables, sorted by name) -/
 abbrev OState := List PCell × List (PCell × Bool) × Py.KSet PCell
 
-theorem order_shape_nodup (body : OState → Option OState) (step : Py.KDict PCell Unit → PCell → Option (Py.KDict PCell Unit))
+theorem order_shape_nodup (cond : OState → Bool) (body : OState → Option OState) (step : Py.KDict PCell Unit → PCell → Option (Py.KDict PCell Unit))
     (hs : ∀ d c, step d c = moveStep PCell.key () d c) (fuel : Nat) (p : PCell) (d : Py.KDict PCell Unit)
-    (h : ((Py.while? (fun s : OState => decide (s.2.1 ≠ [])) body fuel ([], [(p, false)], [])).bind fun x =>
+    (h : ((Py.while? cond body fuel ([], [(p, false)], [])).bind fun x =>
       (List.foldlM step [] x.1.reverse).bind fun r => some r) = some d) : NodupKeys PCell.key d := by
   have hstep : step = moveStep PCell.key () := by funext d c; exact hs d c
   rw [hstep] at h
-  cases hW : Py.while? (fun s : OState => decide (s.2.1 ≠ [])) body fuel ([], [(p, false)], []) with
+  cases hW : Py.while? cond body fuel ([], [(p, false)], []) with
   | none => rw [hW] at h; cases h
   | some s =>
     rw [hW] at h
@@ -187,7 +187,7 @@ cell object, without any assumption on the hash function -/
 theorem order_nodup (fuel : Nat) (p : PCell) (d : Py.KDict PCell Unit) (h : order fuel p [] = some d) : NodupKeys PCell.key d := by
   unfold order at h
   simp only [foldlM_append] at h
-  refine order_shape_nodup _ _ ?hs fuel p d h
+  refine order_shape_nodup _ _ _ ?hs fuel p d h
   case hs => intro d c; rfl
 
 /-! ### `Boc.__init__` -/
